@@ -117,13 +117,16 @@ pub fn world() -> WorldSpec {
 /// (op, expected errno, unique marker expected inside the description)
 pub fn failing_op(rng: &mut Rng, t: usize, k: usize) -> (OpSpec, i32, String) {
     let uniq = format!("u{t}x{k}");
-    let (op, errno, marker) = match rng.below(9) {
+    let (op, errno, marker) = match rng.below(11) {
         0..=2 => (Op::Resolve { path: format!("missing-{uniq}"), nofollow: false }, libc::ENOENT, format!("missing-{uniq}")),
         3 => (Op::Resolve { path: format!("file/sub-{uniq}"), nofollow: false }, libc::ENOTDIR, format!("sub-{uniq}")),
         4 => (Op::Resolve { path: format!("loop{}/{uniq}", rng.below(4)), nofollow: false }, libc::ELOOP, String::new()),
         5 => (Op::Create { path: format!("sock-{uniq}"), kind: CreateKind::RawMknod(libc::S_IFSOCK | 0o600, 0) }, libc::ENOSYS, String::new()),
         6 => (Op::CBadArg { func: "resolve".into(), class: "negfd".into() }, libc::EINVAL, String::new()),
         7 => (Op::RemoveFile { path: format!("d/gone-{uniq}") }, libc::ENOENT, format!("gone-{uniq}")),
+        // a detected attack (a procfs lookup that tries to leave procfs through `..`): EXDEV
+        9 => (Op::ProcOpen { handle: None, base: crate::ops::Base::SelfP, path: format!("../../esc-{uniq}"), flags: libc::O_RDONLY, follow: false }, libc::EXDEV, String::new()),
+        10 => (Op::ProcReadlink { handle: None, base: crate::ops::Base::Root, path: format!("../esc-{uniq}"), bufsz: 64 }, libc::EXDEV, String::new()),
         _ => (Op::MkdirAll { path: format!("d/bad-{uniq}"), mode: 0o10755 }, libc::EINVAL, String::new()),
     };
     (OpSpec::new(op).c(), errno, marker)
